@@ -186,6 +186,8 @@ func GenRandom(out string, seed int64, n, maxn, nq int) error {
 		}
 		relayout(&c, r)
 		reroute(&c, r)
+		// own stream: the element sets and base queries of a seed stay what they were
+		classes(&c, rand.New(rand.NewSource(seed*7919+int64(i))))
 		if err := enc.Encode(c); err != nil {
 			return err
 		}
@@ -203,6 +205,65 @@ func GenRandom(out string, seed int64, n, maxn, nq int) error {
 //	gaps    perm, and vertices nothing refers to are stored between the others
 //	        (also first and last)
 //	all     weld, gaps, perm
+// classes appends value-class variants of the queries (round 5): about half of
+// the rays with a zero direction component once more with those zeros negative
+// (and, one time in three, the zeros of the origin too), every query point /
+// range centre with a zero coordinate once more with negative zeros, and a
+// huge and a subnormal radius now and then. A variant names its twin.
+func classes(c *Case, r *rand.Rand) {
+	c.normalise()
+	zeros := func(q []int, from, to int) int {
+		m := 0
+		for i := from; i < to; i++ {
+			if q[i] == 0 {
+				m |= 1 << uint(i)
+			}
+		}
+		return m
+	}
+	nr := len(c.Rays)
+	for i := 0; i < nr; i++ {
+		q := c.Rays[i]
+		m := zeros(q, 3, 6)
+		if m == 0 || r.Intn(2) == 0 {
+			continue
+		}
+		if r.Intn(3) == 0 {
+			m |= zeros(q, 0, 3)
+		}
+		v := pad(q, 11)
+		v[9], v[10] = m, i+1
+		c.Rays = append(c.Rays, v)
+	}
+	np := len(c.QPts)
+	for i := 0; i < np; i++ {
+		if m := zeros(c.QPts[i], 0, 3); m != 0 {
+			v := pad(c.QPts[i], 5)
+			v[3], v[4] = m, i+1
+			c.QPts = append(c.QPts, v)
+		}
+	}
+	ng := len(c.Ranges)
+	for i := 0; i < ng; i++ {
+		q := c.Ranges[i]
+		if m := zeros(q, 0, 3); m != 0 {
+			v := pad(q, 8)
+			v[5], v[7] = m, i+1
+			c.Ranges = append(c.Ranges, v)
+		}
+		switch r.Intn(8) {
+		case 0:
+			v := pad(q, 8)
+			v[6] = 1
+			c.Ranges = append(c.Ranges, v)
+		case 1:
+			v := pad(q, 8)
+			v[6], v[7] = 2, i+1
+			c.Ranges = append(c.Ranges, v)
+		}
+	}
+}
+
 func relayout(c *Case, r *rand.Rand) {
 	switch c.Kind {
 	case "point", "line", "tri", "bvhtri":
